@@ -104,19 +104,30 @@ func (v *VLANAllocator) AllocateWithSTag(nteID string, sTag uint16) (*VLANAlloca
 	v.mu.Lock()
 	defer v.mu.Unlock()
 
+	// The requested S-TAG must lie inside the configured range like every
+	// S-TAG handed out by Allocate.
+	if sTag < v.config.STagRange.Start || sTag > v.config.STagRange.End {
+		return nil, fmt.Errorf("S-TAG %d outside configured range [%d-%d]",
+			sTag, v.config.STagRange.Start, v.config.STagRange.End)
+	}
+
 	// Check if already allocated
-	if alloc, ok := v.allocations[nteID]; ok {
-		if alloc.STag == sTag {
-			return alloc, nil
-		}
-		// Different S-TAG requested, need to reallocate
-		v.releaseUnlocked(nteID)
+	existing, reallocate := v.allocations[nteID]
+	if reallocate && existing.STag == sTag {
+		return existing, nil
 	}
 
 	// Find available C-TAG for this S-TAG
 	cTag, err := v.findAvailableCTag(sTag)
 	if err != nil {
+		// The NTE keeps the pair it already holds
 		return nil, err
+	}
+
+	// Different S-TAG requested: give up the old pair only now that the new
+	// one is known to exist
+	if reallocate {
+		v.releaseUnlocked(nteID)
 	}
 
 	alloc := &VLANAllocation{
